@@ -27,7 +27,7 @@ QV = os.path.join(HARNESS, "target", "debug", "qv")
 TLA_JAR = "/opt/veriftools/tla/tla2tools.jar"
 CM_JAR = "/opt/veriftools/tla/CommunityModules-deps.jar"
 OVR = os.path.join(ROOT, "overrides", "classes")
-NSHARDS = int(os.environ.get("VERIF_SHARDS", "12"))
+NSHARDS = int(os.environ.get("VERIF_SHARDS", "6"))   # JVM start costs ~6 CPU-seconds; the sandbox often delivers far less than 16 cores
 
 
 class ToolError(Exception):
@@ -244,7 +244,7 @@ def shard_trace(path, nshards, session_start=("Cfg",), max_bytes=24 << 20):
     if cur:
         sessions.append((cur, curno))
     total = sum(sum(len(l) for l in s[0]) for s in sessions)
-    n = max(1, min(nshards, len(sessions)))
+    n = max(1, min(nshards, len(sessions), (total + (1 << 20) - 1) // (1 << 20)))   # at least ~1 MB of trace per JVM
     n = max(n, min(len(sessions), (total + max_bytes - 1) // max_bytes))
     # a session that needs a header (Cfg) is kept whole; big sessions are split with the header repeated
     shards = [([], []) for _ in range(n)]
@@ -644,7 +644,31 @@ def check_C11(res):
     return "messages built with the real Writer in request/response/subsequent mode (also via into_template + try_from_template_as_tsig_subsequent), both algorithms, keys of 1-69 octets, prior MACs of 0-39 octets, times over the whole 48-bit range, fudges 0..65535, all error codes, with and without OPT; verified as produced at clocks time +- fudge (+-1), with one random bit flipped, with the MAC truncated to every length 0..out+1, and (every k-th message) with every octet position flipped in turn"
 
 
+def check_C20(res):
+    q = res.tier == "quick"
+    trace_stage(res, ["zone", "store", res.seed, 1500 if q else 60000], "TraceZone", "zone/store", ["C20"])
+    return "random add histories of 2-27 records (apexes z.test. / root / a.b.z.test.; in-zone owners over {a,b,*,ns,mx,del,sib} to depth 3, out-of-zone owners: unrelated, parent, sibling sharing a label prefix, apex as label prefix; class and TTL mismatches; duplicates and case variants); after every add the result and the store size (nodes, RRsets) must equal the spec's; then full iteration by node and by RRset, soa(), ns()"
+
+
+def check_C21(res):
+    q = res.tier == "quick"
+    trace_stage(res, ["zone", "store", res.seed + 500, 1500 if q else 60000], "TraceZone", "zone/store", ["C21"])
+    res.assumptions += ["RDATA of NS/MX/SOA/CNAME records is well formed (validate() returning Err(InvalidRdata) is outside the property)"]
+    return "random zones mixing apex SOA 0/1/2, apex NS with in/out-of-zone targets, delegations, glue inside and outside child zones, sibling delegations, wildcards, NS at wildcards, CNAMEs alone/duplicated/with other data, MX; both glue policies; classes IN, CH, HS; the issue set and the error/warning split are recomputed by ZoneStore!Validate"
+
+
+def check_C06(res):
+    q = res.tier == "quick"
+    run_mc(res, "MC_ZoneEq", "MC_ZoneEq.tla", "MC_ZoneEq.cfg" if not q else "MC_ZoneEq_quick.cfg", workers=8)
+    run_mc(res, "MC_ZoneEq/mutant (referral test skipped at the target node)", "MC_ZoneEq.tla", "MC_ZoneEq_mutant.cfg", workers=4, expect_violation="Equiv")
+    trace_stage(res, ["zone", "lookup", res.seed, 12 if q else 500], "TraceLookup", "zone/lookup", ["C06"], session_start=("Cfg",))
+    res.assumptions += ["NS at a wildcard owner is not generated (RFC 4592 4.2 leaves it undefined)",
+                        "unchecked lookups are only issued for names inside the zone (the contract of LookupOptions::unchecked)"]
+    return "(M) the recursive tree walk of lookup_impl equals the declarative Zone!LookupBase for every zone in scope; (V) random zones (small alphabet {a,b,c,*} to depth 4, <= 40 records, NS at various depths, CNAMEs, ENTs; every third zone from the richer shared generator) x every name within two labels of every node and ancestor x option combinations x 9 types, three API functions; names outside the zone for the wrong-zone check"
+
+
 CHECKS = {
+    "C06": check_C06, "C20": check_C20, "C21": check_C21,
     "C11": check_C11,
     "C12": check_C12, "C13": check_C13,
     "C15": check_C15,
